@@ -10,11 +10,33 @@ V, S = ig.V, ig.S
 MISSING, EMPTY, UNCHANGED, NONE = ig.MISSING, ig.EMPTY, ig.UNCHANGED, ig.NONE
 
 
-def gen_table_c02(rng, mutable_override=0.0, flavour=None):
+MUTABLE_LITERALS = {50: [("list", [V(1), V(2)]), ("list", []), ("list", [V(3)])],
+                    51: [("dict", [(S(7), V(1))]), ("dict", [])],
+                    52: [("set", [V(1)]), ("set", [])]}
+
+
+def add_mutable_dependants(rng, t):
+    """K2 gets one or two collection attributes with a LITERAL mutable default declared
+    `Attr(default=<list|dict|set>, invalidated_by=[...])` (the class object keeps the literal as a
+    class attribute): invalidated by the scalar attribute 1, the nested attribute 4, another
+    collection, or "*" (99).  Returns the aids of the dependants."""
+    k2 = {a["aid"]: a for a in t[1]["attrs"]}
+    deps = rng.sample([50, 51, 52], rng.choice([1, 1, 2]))
+    for aid in deps:
+        others = [x for x in (50, 51, 52, 53) if x != aid and x not in deps]
+        inv = rng.choice([[1], [1], [4], [1, 4], [99], [rng.choice(others)], [3, 1]])
+        k2[aid].update(default=rng.choice(MUTABLE_LITERALS[aid]), factory=None, decl="Attr", inv_by=inv, dnc=False)
+    return deps
+
+
+def gen_table_c02(rng, mutable_override=0.0, flavour=None, mutable_dependants=0.0):
     """inst_gen table plus: identity item preparers on the collections of spec instances,
-    more do_not_copy attributes, (optionally) a mutable default overridden in the spec subclass"""
+    more do_not_copy attributes, (optionally) a mutable default overridden in the spec subclass,
+    (optionally) mutable literal defaults with invalidated_by"""
     t = ig.gen_table(rng, flavour)
     k2 = {a["aid"]: a for a in t[1]["attrs"]}
+    if rng.random() < mutable_dependants:
+        add_mutable_dependants(rng, t)
     if rng.random() < 0.5:
         k2[53]["prepare_item"] = ("id",)
     if rng.random() < 0.4:
@@ -61,7 +83,7 @@ def noop_call(h, rng, x, cid):
 
 def gen_case_c02(rng, n_ops=6):
     plain = rng.random() < 0.3     # K4: plain (undecorated) subclass of K2 (correspondence and oracles only)
-    table = gen_table_c02(rng, mutable_override=0.5, flavour="plain" if plain else None)
+    table = gen_table_c02(rng, mutable_override=0.5, flavour="plain" if plain else None, mutable_dependants=0.3)
     _, heap0 = ic.resolve_table(table)
     nd = len(heap0)
     h = ig.Hist(rng, table, nd)
@@ -107,6 +129,93 @@ def gen_case_c02(rng, n_ops=6):
         else:
             a = rng.choice(h.attrs_of(cid))
             h.add(("delattr", tgt, a["aid"]), ("none",))
+    return {"table": table, "ops": h.ops, "nd": nd}
+
+
+def gen_case_inv(rng):
+    """histories aimed at a dependant with a LITERAL mutable default (`Attr(default=[...],
+    invalidated_by=[...])`): own elements put into the dependant, the invalidator changed in place on
+    the receiver, copy-on-write helpers of every kind on the invalidator / deepcopy (two sibling
+    copies), in-place element helpers on the dependant of a copy and of the receiver, a new instance.
+    Whatever the invalidation leaves behind must be the instance's own object: with the getattr
+    view of inst_common an instance that merely READS the class-level default object (attribute
+    absent from its dictionary) is seen holding it."""
+    plain = rng.random() < 0.25
+    table = gen_table_c02(rng, mutable_override=0.3, flavour="plain" if plain else None, mutable_dependants=1.0)
+    for c in table[1:]:
+        c["frozen"] = False
+    _, heap0 = ic.resolve_table(table)
+    nd = len(heap0)
+    h = ig.Hist(rng, table, nd)
+    cid = rng.choice([4, 4, 2, 3]) if plain else rng.choice([2, 2, 3])
+    by_aid = {a["aid"]: a for a in h.attrs_of(cid)}
+    deps = [a for a in by_aid.values() if a.get("inv_by") and a["ty"][0] in ("list", "dict", "set")]
+    dep = rng.choice(deps)
+    inv = rng.choice(dep["inv_by"])
+    if inv == 99:
+        inv = rng.choice([a for a in by_aid if a != dep["aid"]])
+    ia = by_aid[inv]
+
+    def item_args():
+        if dep["ty"][0] == "dict":
+            return [S(rng.choice([7, 8, 9])), V(rng.choice([0, 1, 2]))]
+        return [V(rng.choice([0, 1, 2, 5]))]
+
+    def poke(x, inplace=True):          # element helper on the dependant
+        kind = rng.choice(["with_item", "with_item", "with_item", "without_item"])
+        pos = item_args() if kind == "with_item" else item_args()[:1]
+        return h.add(("helper", x, (kind, dep["aid"]), {"pos": pos, "inplace": inplace}), ("inst", cid))
+
+    def change(x, inplace):             # every way of changing the invalidator
+        kinds = ["with", "with", "update", "transform", "reset", "update_top", "transform_top"]
+        if ia["ty"][0] in ("list", "dict", "set") and ia["ty"][-1] == ig.INT:
+            kinds += ["item", "item"]
+        if inplace:
+            kinds += ["setattr", "setattr", "delattr"]
+        k = rng.choice(kinds)
+        if k == "setattr":
+            return h.add(("setattr", x, inv, h.value_for(ia)), ("none",))
+        if k == "delattr":
+            return h.add(("delattr", x, inv), ("none",))
+        hh = {"inplace": inplace}
+        if k in ("with", "update"):
+            hh["pos"] = [h.value_for(ia)]
+        elif k == "transform":
+            hh["fn"] = h.fn_for(ia["ty"])
+        elif k == "update_top":
+            hh["kw"] = [(inv, h.value_for(ia))]
+            return h.add(("helper", x, ("update_top", None), hh), ("inst", cid))
+        elif k == "transform_top":
+            if ia["ty"][0] == "set" or (ia["ty"][-1] == ("spec", 1) and ia["ty"][0] != "spec"):
+                hh["pos"] = [h.value_for(ia)]
+                return h.add(("helper", x, ("with", inv), hh), ("inst", cid))
+            hh["kwfn"] = [(inv, h.fn_for(ia["ty"]))]
+            return h.add(("helper", x, ("transform_top", None), hh), ("inst", cid))
+        elif k == "item":
+            fam = ia["ty"][0]
+            hh["pos"] = [S(7), V(1)] if fam == "dict" else [V(rng.choice([0, 1, 2]))]
+            return h.add(("helper", x, ("with_item", inv), hh), ("inst", cid))
+        return h.add(("helper", x, (k, inv), hh), ("inst", cid))
+
+    if rng.random() < 0.35:                     # receiver holding nothing but its defaults
+        x = h.add(("construct", cid, None, []), ("inst", cid))
+    else:
+        x = h.construct(cid)
+    if rng.random() < 0.6:
+        poke(x)
+    if rng.random() < 0.7:
+        change(x, True)
+    copies = []
+    for _ in range(rng.choice([1, 2, 2])):
+        recv = rng.choice([x] + copies[-1:])
+        if rng.random() < 0.25:
+            copies.append(h.add(("deepcopy", recv), ("inst", cid)))
+        else:
+            copies.append(change(recv, False))
+    for tgt in rng.sample(copies + [x], min(2, len(copies) + 1)):
+        poke(tgt)
+    if rng.random() < 0.5:
+        h.add(("construct", cid, None, []), ("inst", cid))
     return {"table": table, "ops": h.ops, "nd": nd}
 
 
@@ -309,9 +418,46 @@ def dnc_attrs(table, cid):
     return set()
 
 
+def graph_reach(nodes, vals):
+    """indices of the nodes reachable from the values `vals` of a canonical graph"""
+    seen, stack = set(), [v for v in vals if v[0] == "ref"]
+    while stack:
+        i = stack.pop()[1]
+        if i in seen:
+            continue
+        seen.add(i)
+        o = nodes[i]
+        if o[0] == "dict":
+            kids = [x for p in o[1] for x in p]
+        elif o[0] == "inst":
+            kids = [v for _, v in o[2]]
+        else:
+            kids = list(o[1])
+        stack.extend(v for v in kids if v[0] == "ref")
+    return seen
+
+
+def with_dependants(table, cid, targets):
+    """`targets` plus every attribute the class declares invalidated by one of them (transitively;
+    99 = "*"): a call that changes an attribute also resets its dependants in the copy"""
+    base = 2 if cid in (2, 3, 4) else cid
+    attrs = [a for c in table if c["id"] == base for a in c["attrs"]]
+    out = set(targets)
+    grown = bool(out)
+    while grown:
+        grown = False
+        for a in attrs:
+            if a["aid"] not in out and any(x == 99 or x in out for x in a.get("inv_by") or []):
+                out.add(a["aid"])
+                grown = True
+    return out
+
+
 def python_oracles(case, obs):
     """(kind, index of the operation, detail) for: a copy-on-write call that returned the receiver
-    itself; a do_not_copy attribute (not addressed by the call) that the copy does not hold by identity"""
+    itself; a do_not_copy attribute (not addressed by the call) that the copy does not hold by identity;
+    result and receiver of a copy-on-write call / deepcopy both reaching the same class-level default
+    object (with the getattr view: also when they merely read it through the class-attribute fallback)"""
     out = []
     if obs is None:
         return out
@@ -336,11 +482,21 @@ def python_oracles(case, obs):
         nr, ns = nodes[recv[1]], nodes[res[1]]
         if nr[0] != "inst" or ns[0] != "inst":
             continue
+        dflt = graph_reach(nodes, roots[:case["nd"]])
+        if dflt:
+            both = graph_reach(nodes, [recv]) & graph_reach(nodes, [res]) & dflt
+            if both:        # not through do_not_copy attributes (carried by identity, whatever they hold)
+                dvals = [v for o in nodes if o[0] == "inst" for a, v in o[2] if a in dnc_attrs(case["table"], o[1])]
+                both -= graph_reach(nodes, dvals)
+            if both:
+                out.append(("class-default-shared", i, "result and receiver hold / read the same class-level default "
+                            "object (graph node %d): an in-place change of either (or of any other such instance) is "
+                            "visible through the other and in new instances" % min(both)))
         targets = op_targets(op)
         if targets is None:
             continue
         fr, fs = dict(nr[2]), dict(ns[2])
-        for a in dnc_attrs(case["table"], nr[1]) - targets:
+        for a in dnc_attrs(case["table"], nr[1]) - with_dependants(case["table"], nr[1], targets):
             if a in fr and a in fs and fr[a][0] == "ref" and fs[a][0] == "ref" and fr[a] != fs[a]:
                 out.append(("dnc-duplicated", i, "do_not_copy attribute %d of K%d is not carried by identity" % (a, nr[1])))
     return out
